@@ -222,6 +222,7 @@ static void build(vf::Plan &plan, const vf::Opts &o)
         RunOpts ro = all;
         ro.heap_prefix = true;
         add_position_sweep(plan, T ? 600 : 300, ro);
+        add_position_sweep(plan, T ? 80 : 40, ro, 7);
     }
     // truncations of well-formed text: every prefix of every encoding of every sequence in B^<=3
     {
